@@ -636,8 +636,8 @@ impl SwiftField for Field50InstructingParty {
                 let field = Field50L::parse(value)?;
                 Ok(Field50InstructingParty::L(field))
             }
-            None | Some("") => {
-                // No option letter given: fall back to default parse behavior
+            None => {
+                // No tag information at all (direct API use): fall back to default parse behavior
                 Self::parse(value)
             }
             Some(other) => Err(ParseError::InvalidFormat {
@@ -725,8 +725,8 @@ impl SwiftField for Field50OrderingCustomerFGH {
                 let field = Field50H::parse(value)?;
                 Ok(Field50OrderingCustomerFGH::H(field))
             }
-            None | Some("") => {
-                // No option letter given: fall back to default parse behavior
+            None => {
+                // No tag information at all (direct API use): fall back to default parse behavior
                 Self::parse(value)
             }
             Some(other) => Err(ParseError::InvalidFormat {
@@ -821,8 +821,8 @@ impl SwiftField for Field50OrderingCustomerAFK {
                 let field = Field50K::parse(value)?;
                 Ok(Field50OrderingCustomerAFK::K(field))
             }
-            None | Some("") => {
-                // No option letter given: fall back to default parse behavior
+            None => {
+                // No tag information at all (direct API use): fall back to default parse behavior
                 Self::parse(value)
             }
             Some(other) => Err(ParseError::InvalidFormat {
@@ -988,8 +988,8 @@ impl SwiftField for Field50Creditor {
                 let field = Field50K::parse(value)?;
                 Ok(Field50Creditor::K(field))
             }
-            None | Some("") => {
-                // No option letter given: fall back to default parse behavior
+            None => {
+                // No tag information at all (direct API use): fall back to default parse behavior
                 Self::parse(value)
             }
             Some(other) => Err(ParseError::InvalidFormat {
